@@ -287,15 +287,15 @@ type result struct {
 }
 
 type runner struct {
-	c    *Case
-	w    *world
-	ops  atomic.Int64
-	mu   chan struct{} // 1-slot lock for fails
-	res  *result
-	pad  bool
+	c   *Case
+	w   *world
+	ops atomic.Int64
+	mu  chan struct{} // 1-slot lock for fails
+	res *result
+	pad bool
 	// length of the payload the relay handed to the second tunnel's DialStream
 	relayDialed int
-	want struct{ c2s, s2c []byte }
+	want        struct{ c2s, s2c []byte }
 }
 
 func (r *runner) fail(clause, dir, format string, a ...any) {
